@@ -53,6 +53,9 @@ type CPU interface {
 	TriggerIRQ()
 	SetInterrupt(v byte)
 	Disasm() string
+	// Fork returns a CPU created with InitFrom from this one (same state, same memory object);
+	// the fork of a fork is the original object again, re-initialised from the fork.
+	Fork() CPU
 }
 
 func b2(b bool) byte {
@@ -114,6 +117,18 @@ type Primary struct {
 	C     *cpu65c816.CPU
 	Bus   *bus.Bus
 	proxy *memProxy
+	fork  *Primary
+}
+
+func (p *Primary) Fork() CPU {
+	if p.fork == nil {
+		p.fork = NewPrimary()
+		p.fork.fork = p
+	}
+	f := p.fork
+	f.C.InitFrom(p.C, f.Bus)
+	f.proxy.M = p.proxy.M
+	return f
 }
 
 func NewPrimary() *Primary {
@@ -184,6 +199,20 @@ func (p *Primary) Disasm() string {
 type Alt struct {
 	C     *cpualt.CPU
 	proxy *memProxy
+	fork  *Alt
+}
+
+// Fork: InitFrom copies the bus tables too, so the fork reads and writes through the original's
+// proxy; the adapters share it.
+func (p *Alt) Fork() CPU {
+	if p.fork == nil {
+		p.fork = NewAlt()
+		p.fork.fork = p
+	}
+	f := p.fork
+	f.C.InitFrom(p.C)
+	f.proxy = p.proxy
+	return f
 }
 
 func NewAlt() *Alt {
